@@ -154,11 +154,75 @@ def make_cases(rng, nbase):
 ROOT_EXPRS = [("root-sum", "v + 0"), ("root-cast", "v as i32"), ("root-paren-sum", "(v + 0)"), ("root-product", "v * 1"), ("root-block", "{ v }"), ("root-neg-neg", "-(-v)"), ("root-if", "if true { v } else { 0 }")]
 
 
+TEMP_STEPS = {"place": ".fld", "index": ".xs[0]", "callValue": ".own()", "callBorrow": ".r()"}
+TEMP_LETTER = {"place": "p", "index": "p", "callValue": "v", "callBorrow": "b"}
+TEMP_DEPTH = 4
+
+
+def temporaries_part(ck):
+    """`Temporaries.lean` says which field-operation chains leave a dangling borrow behind when a template binds `&V` with `let`, and
+    that a `match` scrutinee never does (the C11Temporaries theorems; f5121f2 moved the last two templates over).  rustc is the oracle
+    for that judgment: every chain of up to four steps over {field, index, call returning an owned value, call returning a borrow of its
+    receiver} is compiled in both holds, and the model's answer has to be rustc's (E0716 or accepted).  The hold the model assigns to the
+    string and set templates is tied to the real generator by T2 (Render picks their tokens by it) and by the position sweep above."""
+    import e2e, itertools
+    chains = [ch for n in range(1, TEMP_DEPTH + 1) for ch in itertools.product(sorted(TEMP_STEPS), repeat=n)]
+    src = ["#![allow(warnings)]", "fn touch<T: std::fmt::Debug>(_x: &T) {}"]
+    for i in range(TEMP_DEPTH):
+        src.append("#[derive(Clone, Debug)] pub struct T%d { pub fld: T%d, pub xs: Vec<T%d> }" % (i, i + 1, i + 1))
+        src.append("impl T%d { pub fn own(&self) -> T%d { self.fld.clone() } pub fn r(&self) -> &T%d { &self.fld } }" % (i, i + 1, i + 1))
+    src.append("#[derive(Clone, Debug)] pub struct T%d { pub v: u32 }" % TEMP_DEPTH)
+    where = {}
+    for k, ch in enumerate(chains):
+        e = "v" + "".join(TEMP_STEPS[s] for s in ch)
+        src.append("fn c%d_let(v: &T0) { let x = &%s; touch(x); }" % (k, e))
+        where[len(src)] = (k, "let")
+        src.append("fn c%d_match(v: &T0) { match &%s { x => { touch(x); } } }" % (k, e))
+        where[len(src)] = (k, "match")
+    src.append("fn main() {}")
+    proj = e2e.Project("c11-temporaries", prelude=False)
+    rejected = {}
+    try:
+        proj.add_bin("temps", "\n".join(src) + "\n")
+        res = proj.build(check_only=True)
+        for d in res["temps"]["diags"]:
+            for sp in d["spans"]:
+                if sp["primary"] and sp["ls"] in where:
+                    rejected[where[sp["ls"]]] = d["code"]
+    finally:
+        proj.cleanup()
+    reqs = ["dangles %s %s" % (h, ".".join(TEMP_LETTER[s] for s in ch)) for ch in chains for h in ("let", "match")]
+    outs = ck.lean_batch(reqs)
+    bad = 0
+    it = iter(outs)
+    dist = {}
+    for k, ch in enumerate(chains):
+        for h in ("let", "match"):
+            model = next(it)
+            impl = rejected.get((k, h))
+            key = "%s:%s" % (h, "rejected" if impl else "accepted")
+            dist[key] = dist.get(key, 0) + 1
+            if model not in ("true", "false"):
+                raise RuntimeError("driver answered %r for a dangles request" % model)
+            if (model == "true") != (impl is not None):
+                bad += 1
+                ck.report("corr:temporaries-model", "the model of Rust's temporary scopes (Temporaries.lean: dangles) disagrees with rustc on a chain",
+                          dict(broken="correspondence: AsModel.dangles vs rustc", chain=list(ch), hold=h, expression="v" + "".join(TEMP_STEPS[s] for s in ch), model=model, rustc=impl or "accepted",
+                               theorems=["C11_no_dangling_temporaries", "letRef_dangles_iff"]), no_input=True)
+    # the holds the model assigns to the two templates that bind the value (current tree), and what it said of the tree before f5121f2
+    cur = ck.lean_batch(["dangles string p.v.b", "dangles set p.v.b", "dangles string-pinned p.v.b", "dangles set-pinned p.v.b"])
+    if cur != ["false", "false", "true", "true"]:
+        raise RuntimeError("unexpected answers for the template holds: %r" % cur)
+    ck.corr_record("temporary scopes (every field-operation chain of up to %d steps over field / index / by-value call / borrowing call, held by `let x = &V` and by `match &V`: rustc's verdict vs AsModel.dangles)" % TEMP_DEPTH,
+                   len(reqs), len(reqs), bad, dist, samples=[dict(expression="v.fld.own().r()", let="E0716", match="accepted")], exhaustive=True,
+                   rule="all %d chains x 2 holds, compiled by rustc (check only)" % len(chains))
+
+
 BORROWCK_CODES = {"E0382", "E0499", "E0502", "E0503", "E0505", "E0506", "E0507", "E0515", "E0521", "E0597", "E0713", "E0716"}
 
 
 def run(ck):
-    ck.prove(["AsModel.Theorems.C11"])
+    ck.prove(["AsModel.Theorems.C11", "AsModel.Theorems.C11Temporaries"])
     ck.build_harness("inproc")
     n = 10 if ck.tier == "quick" else 300
     cases = t3.run_corpus(ck, "c11", n, per_bin=16, positions=make_cases)
@@ -209,6 +273,7 @@ def run(ck):
     if mm and not [v for v in ck.violations if not v["no_input"]]:
         ck.report("corr:T2-body", "the model of the code generator no longer matches the real expansion (%d inputs differ)" % len(mm),
                   dict(broken="correspondence T2 (expansion tokens)", theorems=["expandPat_subst", "C11_template_position_independent", "C11_elem_code", "C11_after_operations"], first=mm[:3]), no_input=True)
+    temporaries_part(ck)
     import parsetie
     parsetie.light_tie(ck, "C11: the compiled programs' expectations read patterns with the model parser")
     ck.assumptions += ["acceptance is decided by rustc itself (the oracle); the model's reference-level calculus is validated against it cell by cell, not proved about rustc"]
